@@ -12,6 +12,8 @@ TTL_FOREVER = 0xFFFFFF
 
 
 class ServerRecorder(SD.ServerServiceListener):
+    VC_MODEL = True  # environment model (write-only recorder): outside the frames of loop contracts
+
     """server-side listener: records, and rejects when told to"""
 
     def __init__(self, log, reject):
@@ -197,6 +199,10 @@ def ob_subscription_echo(vc):
     for o in e.options_1:
         if isinstance(o, H.EndpointOption):
             vc.check(o in s.endpoints, "from_subscribe_entry.every_endpoint_kept")
+    if len(e.options_1) == 2:
+        vc.cover("two-options")
+        swapped = H.SOMEIPSDEntry(sd_type=e.sd_type, service_id=e.service_id, instance_id=e.instance_id, major_version=e.major_version, ttl=e.ttl, minver_or_counter=e.minver_or_counter, options_1=(e.options_1[1], e.options_1[0]))
+        vc.check_eq(SD.EventgroupSubscription.from_subscribe_entry(swapped), s, "from_subscribe_entry.identity_does_not_depend_on_the_order_of_the_endpoint_options")
     ack = vc.body(SD.EventgroupSubscription.to_ack_entry)(s)
     nack = vc.body(SD.EventgroupSubscription.to_nack_entry)(s)
     exp = H.SOMEIPSDEntry(
@@ -375,10 +381,13 @@ class FWorld:
         t.REQUEST_RESPONSE_DELAY_MAX = vc.real(name + ".delay_max", 0)
         vc.assume(t.REQUEST_RESPONSE_DELAY_MIN <= t.REQUEST_RESPONSE_DELAY_MAX)
         t.ANNOUNCE_TTL = vc.int(name + ".announce_ttl", 1, TTL_FOREVER)
+        # an instance may be announced with timings of its own
+        self.inst_timings = SD.Timings()
+        self.inst_timings.ANNOUNCE_TTL = vc.int(name + ".instance_announce_ttl", 1, TTL_FOREVER)
         self.insts = []
         for i in range(vc.choice(name + ".instances", (2, 1, 3))):
             svc = SCFG.gen_service(vc, name + ".svc" + str(i))
-            inst = SD.ServiceInstance(svc, ServerRecorder([], False), self.ann, t)
+            inst = SD.ServiceInstance(svc, ServerRecorder([], False), self.ann, self.inst_timings)
             inst._can_answer_offers = vc.bool(name + ".inst" + str(i) + ".ready")
             if vc.bool(name + ".inst" + str(i) + ".running"):
                 inst._task = LL.Task(self.loop, None)
@@ -448,7 +457,7 @@ def ob_send_offer(vc):
         vc.cover("stopped")
         vc.check_eq(len(queued), 0, "_send_offer.nothing_follows_a_stop")
     else:
-        ttl = 0 if stop else w.prot.timings.ANNOUNCE_TTL
+        ttl = 0 if stop else inst.timings.ANNOUNCE_TTL
         exp = inst.service.create_offer_entry(ttl)
         vc.check_eq(len(queued), 1, "_send_offer.queues_one_entry")
         if len(queued) == 1:
@@ -526,7 +535,9 @@ def ob_queue_send(vc):
         vc.check_eq(w.sends, [([entry], w.R)], "queue_send.zero_timeout.sent_immediately_alone_to_its_destination")
         vc.check_eq(len(w.loop.timers), n_timers, "queue_send.zero_timeout.arms_nothing")
         return
-    vc.check_eq(w.sends, [], "queue_send.nothing_sent_before_the_window_closes")
+    # the entry may already have left (in a message of its destination) or wait in the
+    # destination's open collector -- but not both, and not twice
+    vc.check_eq(w.sends, [], "queue_send.nothing_sent_to_anyone_yet")
     c = w.ann.send_queues.get(w.R)
     vc.check(c is not None and not c.done, "queue_send.destination_has_an_open_collector")
     if c is None:
@@ -559,7 +570,7 @@ def ob_collector_timeout(vc):
     vc.check(w.col.done, "collector.closed_after_timeout")
     vc.check_eq(len(w.sends), 1, "collector.sends_exactly_once")
     if len(w.sends) == 1:
-        vc.check(w.sends[0][0] is w.col.data, "collector.sends_everything_queued_in_queueing_order")
+        vc.check_eq(w.sends[0][0], w.col.data, "collector.sends_everything_queued_in_queueing_order")
         vc.check_eq(w.sends[0][1], w.R, "collector.sends_to_its_destination")
     o = vc.outcome(w.col.append, SCFG.gen_entry(vc, "late", sd_type=H.SOMEIPSDEntryType.OfferService, resolved=True))
     vc.check(vc.is_exc(o, RuntimeError), "collector.closed_collector_refuses_entries")
@@ -571,13 +582,22 @@ def ob_queue_then_timeout(vc):
     with everything queued before it for that destination in front of it"""
     w = QWorld(vc)
     vc.assume(w.timeout != 0)
-    entry = SCFG.gen_entry(vc, "entry", sd_type=vc.choice("entry_type", (H.SOMEIPSDEntryType.OfferService, H.SOMEIPSDEntryType.SubscribeAck)), resolved=True)
+    if vc.bool("entry_equal_to_one_already_queued"):
+        # e.g. offer, stop-offer, offer of one instance within a window: equal entries are
+        # separate requests and each is transmitted
+        p_ = w.prior
+        entry = H.SOMEIPSDEntry(sd_type=p_.sd_type, service_id=p_.service_id, instance_id=p_.instance_id, major_version=p_.major_version, ttl=p_.ttl, minver_or_counter=p_.minver_or_counter, options_1=p_.options_1, options_2=p_.options_2)
+    else:
+        entry = SCFG.gen_entry(vc, "entry", sd_type=vc.choice("entry_type", (H.SOMEIPSDEntryType.OfferService, H.SOMEIPSDEntryType.SubscribeAck)), resolved=True)
     w.ann.queue_send(entry, w.R)
     c = w.ann.send_queues.get(w.R)
     w.loop.fire(c._handle)
+    for h in w.loop.live_timers():
+        w.loop.fire(h)  # whatever else is still armed fires as well: nothing is sent twice
     n = len([1 for s in w.sends if len(vc.list_tail(s[0])) > 0 and vc.list_tail(s[0])[len(vc.list_tail(s[0])) - 1] is entry])
     vc.check_eq(n, 1, "queued_entry.transmitted_exactly_once_as_the_last_of_its_message")
-    vc.check_eq([s[1] for s in w.sends], [w.R], "queued_entry.only_to_its_destination")
+    vc.check_eq(len([1 for s in w.sends if s[1] is w.R]), 1, "queued_entry.one_message_to_its_destination")
+    vc.check_eq(len([1 for s in w.sends if s[1] is not w.R and s[1] is not w.R2]), 0, "queued_entry.nothing_to_anyone_else")
 
 
 def ob_stop_keeps_queued_entries(vc):
